@@ -542,7 +542,7 @@ impl SectionMap {
                             }
                         }
                         for (st, en) in &spans {
-                            let v: u64 = std::str::from_utf8(&bytes[*st..*en]).ok()?.parse().unwrap_or(u64::MAX);
+                            let v: u64 = std::str::from_utf8(&bytes[*st..*en]).ok().and_then(|x| x.parse().ok()).unwrap_or(u64::MAX);
                             m.numbers.push(NumSpan { start: *st, end: *en, value: v, key: key.clone() });
                         }
                         if name == "POSITION" {
@@ -551,9 +551,11 @@ impl SectionMap {
                                 let (s0, e0) = spans[k];
                                 let (s1, e1) = spans[k + 1];
                                 if e0 < bytes.len() && bytes[e0] == b'-' && s1 == e0 + 1 {
-                                    let a: usize = std::str::from_utf8(&bytes[s0..e0]).ok()?.parse().ok()?;
-                                    let bb: usize = std::str::from_utf8(&bytes[s1..e1]).ok()?.parse().ok()?;
-                                    m.ranges.push(RangeSpan { start: s0, end: e1, a, b: bb, key: key.clone() });
+                                    let a = std::str::from_utf8(&bytes[s0..e0]).ok().and_then(|x| x.parse::<usize>().ok());
+                                    let bb = std::str::from_utf8(&bytes[s1..e1]).ok().and_then(|x| x.parse::<usize>().ok());
+                                    if let (Some(a), Some(bb)) = (a, bb) {
+                                        m.ranges.push(RangeSpan { start: s0, end: e1, a, b: bb, key: key.clone() });
+                                    }
                                     k += 2;
                                 } else {
                                     k += 1;
@@ -573,8 +575,8 @@ impl SectionMap {
             } else {
                 "win"
             };
-            let st = m.data_start + r.a;
-            let en = (m.data_start + r.b + 1).min(bytes.len());
+            let st = m.data_start.saturating_add(r.a);
+            let en = m.data_start.saturating_add(r.b).saturating_add(1).min(bytes.len());
             if st >= en {
                 continue;
             }
